@@ -347,7 +347,7 @@ func DefaultChooser(rng *rand.Rand) *Chooser {
 		Bindings: []string{"?a", "?b", "?c", "?g"},
 		Nodes:    []string{"/u<a>", "/t<b>"},
 		Preds:    []string{`"p"@[]`, `"q"@[2016-01-01T00:00:00Z]`, `"p"@[?t]`},
-		Bounds:   []string{`"p"@[2015-01-01T00:00:00Z,2017-01-01T00:00:00Z]`, `"q"@[,]`},
+		Bounds:   []string{`"p"@[2015-01-01T00:00:00Z,2017-01-01T00:00:00Z]`, `"q"@[,]`, `"p"@[?a,?b]`, `"q"@[?c,]`},
 		Lits:     []string{`"5"^^type:int64`, `"abc"^^type:text`, `"true"^^type:bool`},
 		Blank:    []string{"_:v1"},
 		Times:    []string{"2016-01-01T00:00:00Z"},
